@@ -37,8 +37,9 @@ pub struct OpenEventIndex {
 
 impl OpenEventIndex {
     pub fn create(id: BucketSegmentId, path: impl AsRef<Path>) -> Result<Self, EventIndexError> {
+        // Readable too: once closed and flushed, lookups read the records through this handle.
         let file = OpenOptions::new()
-            .read(false)
+            .read(true)
             .write(true)
             .create_new(true)
             .open(path)?;
